@@ -1200,7 +1200,7 @@ pub fn run_history(c: &VCase, rec: &Rec, value_clauses: bool) -> Result<HistoryS
         if first_deposit_done {
             let locked = vw.w.cw20_balance(&vw.lp, &vw.vault);
             ensure!(
-                locked >= 1000 && after.supply >= 1000,
+                locked >= crate::props::c01::min_liq() && after.supply >= crate::props::c01::min_liq(),
                 "step {step} ({op:?}): minimum liquidity not locked in the vault: vault holds {locked} shares, supply {}",
                 after.supply
             );
